@@ -114,9 +114,9 @@ def observe(g, plan, sc, ref):
 
 def big_preterminal(ctx, sc, dist):
     vio = []
-    n1, n2 = ctx.scale(300, 520), 300
+    n1, n2 = ctx.scale(620, 1100), 300       # 186000 / 330000 guesses in ONE pre-terminal
     rs = {"name": "BIG", "encoding": "utf-8", "uuid": "00000000-0000-0000-0000-000000000012", "files": {
-        "A4": [("w%03d" % i, 1.0 / n1) for i in range(n1)], "C4": [("LLLL", 1.0)],
+        "A4": [("".join(chr(97 + (i // 26 ** k) % 26) for k in (3, 2, 1, 0)), 1.0 / n1) for i in range(n1)], "C4": [("LLLL", 1.0)],
         "D3": [("%03d" % i, 1.0 / n2) for i in range(n2)], "D1": [("7", 0.6), ("8", 0.4)]},
         "grammar": [("A4D3", 0.7), ("D1", 0.3)], "prince": [("D1", 1.0)], "omen": None, "omen_prob": [("1", 0.1)]}
     try:
@@ -127,7 +127,7 @@ def big_preterminal(ctx, sc, dist):
     total = len(ref["out"])
     big = n1 * n2
     dist["big_preterminal_guesses"] = big
-    for qstep in (1000, big * 3 // 4, big - 10):
+    for qstep in (1000, big * 3 // 5, big - 10):
         plan = {qstep: ["q", "die"]}
         r = sched.run_session(g, plan, sc)
         dist["big_preterminal_runs"] = dist.get("big_preterminal_runs", 0) + 1
